@@ -5,6 +5,7 @@
 From Coq Require Import List Bool String Ascii ZArith Sorted Permutation Lia.
 From HI Require Import Model.Tracker Model.Conv Model.CrtList
                        Proofs.IncSync Proofs.Conv Proofs.ConvSort Proofs.ConvHist.
+From HI Require Proofs.ConvHist_multi.
 Import ListNotations.
 Open Scope string_scope.
 
@@ -745,10 +746,33 @@ Proof.
   exact (rotation_local w (last_w w0 h) k Hi Hs n Hn).
 Qed.
 
-(* the premise is satisfiable: the history of Proofs/ConvHist_multi.v *)
-Example history_served_example :
-  hist_ok_g ConvHist_multi.gw0 ConvHist_multi.ghist.
-Proof. exact ConvHist_multi.general_history_ok. Qed.
+(* the premise is satisfiable: on the conflict example, secret ns1/tls-1 is replaced, then
+   deleted; then the winning ingress is deleted (the loser takes over) *)
+Definition rot_b : batch := {| b_links := [(KSecret, "ns1/tls-1")]; b_add := []; b_upd := []; b_del := [] |}.
+Definition rot_w1 : world := with_secret y_world "ns1/tls-1" "HASH-A2".
+Definition rot_w2 : world :=
+  {| w_ings := w_ings y_world; w_svcs := []; w_eps := []; w_secrets := [("ns2/tls-2", "HASH-B")] |}.
+Definition rot_b3 : batch := {| b_links := [(KIngress, "ns1/inga")]; b_add := []; b_upd := []; b_del := ["ns1/inga"] |}.
+Definition rot_w3 : world :=
+  {| w_ings := [y_ing_b]; w_svcs := []; w_eps := []; w_secrets := [("ns2/tls-2", "HASH-B")] |}.
+Definition rot_hist : list (batch * world) := [(rot_b, rot_w1); (rot_b, rot_w2); (rot_b3, rot_w3)].
+
+Example history_served_example : hist_ok_g y_world rot_hist.
+Proof.
+  unfold rot_hist. cbn [hist_ok_g].
+  refine (conj _ (conj _ (conj _ (conj _ (conj _ (conj _ I))))));
+    first [apply ConvHist_multi.batch_wfb_sound; vm_compute; reflexivity
+          |apply ConvHist_multi.batch_links_okb_sound; vm_compute; reflexivity].
+Qed.
+
+Definition served_after (x : option st) (names : list string) (n : string) : option string :=
+  match x with Some x' => Some (served_in names (fst x') n) | None => None end.
+
+Example history_served_eval :
+  served_after (run_hist (sync_full y_world) [(rot_b, rot_w1)]) (host_names rot_w1) "h.example" = Some "HASH-A2" /\
+  served_after (run_hist (sync_full y_world) [(rot_b, rot_w1); (rot_b, rot_w2)]) (host_names rot_w2) "h.example" = Some default_crt /\
+  served_after (run_hist (sync_full y_world) rot_hist) (host_names rot_w3) "h.example" = Some "HASH-B".
+Proof. vm_compute. auto. Qed.
 
 (* ================================================================== *)
 (* F. runtime: the certificate is replaced through the socket exactly  *)
